@@ -34,8 +34,9 @@ Section Inv.
   Hypothesis Hdp : dest <> part.
   Hypothesis Hpd : same_dir part = true.
 
-  Definition scan_of (w : world) : scan :=
-    fold_right (fun e s => scan_step dest s (call_of e)) scan0 (w_trace w).
+  Definition scan_tr (t : list (ev * option nat)) : scan :=
+    fold_right (fun e s => scan_step dest s (call_of e)) scan0 t.
+  Definition scan_of (w : world) : scan := scan_tr (w_trace w).
 
   Lemma scan_of_rev t :
     scan_calls dest (map call_of (rev t)) = fold_right (fun e s => scan_step dest s (call_of e)) scan0 t.
@@ -139,6 +140,45 @@ Section Inv.
     apply sched_appear_In in E. eapply Hst; eauto.
   Qed.
 
+  (* stages that may also mention the umask and the whole call trace (used by C05) *)
+  Definition stageT := N -> fs -> fstate -> list (ev * option nat) -> Prop.
+  Definition LT (P : stageT) (w : world) : Prop :=
+    P (w_umask w) (w_fs w) (w_file w) (w_trace w) /\ w_dest w = dest /\ w_sched w = sched.
+  Definition istableT (P : stageT) : Prop :=
+    forall um s f tr k cnt m, P um s f tr -> f_dir s dest = None -> In (k, AAppear cnt m) sched ->
+                              P um (fs_create s dest cnt true m) f tr.
+  Definition lift (P : stage) : stageT := fun _ s f tr => P s f (scan_tr tr).
+
+  Lemma LT_interfere (P : stageT) w : istableT P -> LT P w -> P (w_umask w) (interfere w) (w_file w) (w_trace w).
+  Proof.
+    intros Hst (HP & Hd & Hs). unfold interfere. rewrite Hs, Hd.
+    destruct (sched_appear sched (w_tick w)) as [[cnt m]|] eqn:E; auto.
+    destruct (f_dir (w_fs w) dest) eqn:Ed; auto.
+    apply sched_appear_In in E. eapply Hst; eauto.
+  Qed.
+
+  Lemma prim_ruleT (P Q E : stageT) e forced :
+    istableT P ->
+    (forall um s f tr errno, P um s f tr ->
+        E um (fst (after_fault um e s f)) (snd (after_fault um e s f)) ((e, Some errno) :: tr)) ->
+    (forall um s f tr, P um s f tr ->
+        match fst (fst (sem um e s f)) with
+        | None => Q um (snd (fst (sem um e s f))) (snd (sem um e s f)) ((e, None) :: tr)
+        | Some errno => E um (snd (fst (sem um e s f))) (snd (sem um e s f)) ((e, Some errno) :: tr)
+        end) ->
+    triple (LT P) (prim_f e forced) (fun _ => LT Q) (fun _ => LT E) (LT P).
+  Proof.
+    intros Hst Hf Hs w Hw. unfold prim_f. destruct (crash_now w); [exact Hw|].
+    pose proof (LT_interfere P w Hst Hw) as Hi. destruct Hw as (_ & Hd & Hsc).
+    unfold step. destruct (fault_of forced w) as [errno|].
+    - unfold LT, next_world. cbn [w_fs w_file w_trace w_dest w_sched w_umask fst snd].
+      split; [|auto]. apply Hf. exact Hi.
+    - specialize (Hs (w_umask w) _ _ _ Hi).
+      destruct (sem (w_umask w) e (interfere w) (w_file w)) as [[r s'] f'].
+      unfold LT, next_world. cbn [w_fs w_file w_trace w_dest w_sched w_umask fst snd] in *.
+      destruct r as [errno|]; (split; [|auto]); exact Hs.
+  Qed.
+
   Lemma prim_rule (P Q E : stage) e forced :
     istable P ->
     (forall um s f sc, P s f sc -> E (fst (after_fault um e s f)) (snd (after_fault um e s f)) sc) ->
@@ -152,11 +192,11 @@ Section Inv.
     intros Hst Hf Hs w Hw. unfold prim_f. destruct (crash_now w); [exact Hw|].
     pose proof (L_interfere P w Hst Hw) as Hi. destruct Hw as (_ & Hd & Hsc).
     unfold step. destruct (fault_of forced w) as [errno|].
-    - unfold L, scan_of, next_world. cbn [w_fs w_file w_trace w_dest w_sched fold_right fst snd].
+    - unfold L, scan_of, scan_tr, next_world. cbn [w_fs w_file w_trace w_dest w_sched fold_right fst snd].
       rewrite call_of_failed. cbn [scan_step]. split; [|auto]. apply Hf. exact Hi.
     - specialize (Hs (w_umask w) _ _ _ Hi).
       destruct (sem (w_umask w) e (interfere w) (w_file w)) as [[r s'] f'].
-      unfold L, scan_of, next_world. cbn [w_fs w_file w_trace w_dest w_sched fold_right fst snd] in *.
+      unfold L, scan_of, scan_tr, next_world. cbn [w_fs w_file w_trace w_dest w_sched fold_right fst snd] in *.
       destruct r as [errno|].
       + rewrite call_of_failed. cbn [scan_step]. split; [|auto]. exact Hs.
       + split; [|auto]. exact Hs.
@@ -390,20 +430,29 @@ Section Inv.
   Qed.
 
   (* ---- the transitions ---- *)
-  Lemma tr_unlink_init forced :
-    triple (L St_init) (prim_f (EUnlink part) forced) (fun _ => L St_init) (fun _ => L Safe) (L Safe).
+  Definition sem_prem (P Q : stage) (e : ev) : Prop :=
+    forall um s f sc, P s f sc ->
+      match fst (fst (sem um e s f)) with
+      | None => Q (snd (fst (sem um e s f))) (snd (sem um e s f)) (scan_step dest sc (call_of (e, None)))
+      | Some _ => St_any (snd (fst (sem um e s f))) (snd (sem um e s f)) sc
+      end.
+
+  Lemma sem_unlink_init : sem_prem St_init St_init (EUnlink part).
   Proof.
-    apply prim_stage; [apply init_stable|apply init_any|].
+    unfold sem_prem.
     intros um s f sc (Hb & Hf & Hsc). subst. cbn. destruct (f_dir s part) eqn:E; cbn.
     - split; [apply base_set_name; auto; discriminate|]. split; [auto|].
       unfold scan0. rewrite Hne. reflexivity.
     - apply init_any. split; auto.
   Qed.
 
-  Lemma tr_open perms forced :
-    triple (L St_init) (prim_f (EOpen part true perms) forced) (fun _ => L (St_open [])) (fun _ => L Safe) (L Safe).
+  Lemma tr_unlink_init forced :
+    triple (L St_init) (prim_f (EUnlink part) forced) (fun _ => L St_init) (fun _ => L Safe) (L Safe).
+  Proof. apply prim_stage; [apply init_stable|apply init_any|apply sem_unlink_init]. Qed.
+
+  Lemma sem_open perms : sem_prem St_init (St_open []) (EOpen part true perms).
   Proof.
-    apply prim_stage; [apply init_stable|apply init_any|].
+    unfold sem_prem.
     intros um s f sc (Hb & Hf & Hsc). subst. cbn. destruct (f_dir s part) eqn:E; cbn.
     - apply init_any. split; auto.
     - split; [apply (base_create s FNone); auto|]. split.
@@ -412,17 +461,23 @@ Section Inv.
         unfold sc_writing. cbn. rewrite Hpd', Hne. cbn. auto.
   Qed.
 
-  Lemma tr_fdopen acc forced :
-    triple (L (St_open acc)) (prim_f EFdopen forced) (fun _ => L (St_open acc)) (fun _ => L Safe) (L Safe).
+  Lemma tr_open perms forced :
+    triple (L St_init) (prim_f (EOpen part true perms) forced) (fun _ => L (St_open [])) (fun _ => L Safe) (L Safe).
+  Proof. apply prim_stage; [apply init_stable|apply init_any|apply sem_open]. Qed.
+
+  Lemma sem_fdopen acc : sem_prem (St_open acc) (St_open acc) EFdopen.
   Proof.
-    apply prim_stage; [apply open_stable|apply open_any|].
+    unfold sem_prem.
     intros um s f sc H. cbn. exact H.
   Qed.
 
-  Lemma tr_chmod acc perms forced :
-    triple (L (St_open acc)) (prim_f (EChmod part perms) forced) (fun _ => L (St_open acc)) (fun _ => L Safe) (L Safe).
+  Lemma tr_fdopen acc forced :
+    triple (L (St_open acc)) (prim_f EFdopen forced) (fun _ => L (St_open acc)) (fun _ => L Safe) (L Safe).
+  Proof. apply prim_stage; [apply open_stable|apply open_any|apply sem_fdopen]. Qed.
+
+  Lemma sem_chmod acc perms : sem_prem (St_open acc) (St_open acc) (EChmod part perms).
   Proof.
-    apply prim_stage; [apply open_stable|apply open_any|].
+    unfold sem_prem.
     intros um s f sc (Hb & (p & buf & Hf & Hp & Hv) & (Ho & Hfi & Hpu) & Hs). subst f. cbn. rewrite Hp. cbn.
     pose proof Hb as (_ & _ & (_ & Hsep)).
     split; [unfold set_mode; apply base_upd_ino; auto|]. split.
@@ -430,11 +485,13 @@ Section Inv.
     - unfold sc_writing. cbn. rewrite Ho, Hne. auto.
   Qed.
 
-  Lemma tr_write acc data disk forced :
-    triple (L (St_open acc)) (prim_f (EWrite data disk) forced)
-           (fun _ => L (St_open (acc ++ data))) (fun _ => L Safe) (L Safe).
+  Lemma tr_chmod acc perms forced :
+    triple (L (St_open acc)) (prim_f (EChmod part perms) forced) (fun _ => L (St_open acc)) (fun _ => L Safe) (L Safe).
+  Proof. apply prim_stage; [apply open_stable|apply open_any|apply sem_chmod]. Qed.
+
+  Lemma sem_write acc data disk : sem_prem (St_open acc) (St_open (acc ++ data)) (EWrite data disk).
   Proof.
-    apply prim_stage; [apply open_stable|apply (open_any acc)|].
+    unfold sem_prem.
     intros um s f sc H. pose proof H as (Hb & (p & buf & Hf & Hp & Hv) & (Ho & Hfi & Hpu) & Hs). subst f. cbn.
     destruct ((blen (i_vol (f_ino s p)) <=? disk)%N && (disk <=? blen (i_vol (f_ino s p) ++ buf ++ data))%N); cbn.
     - pose proof Hb as (_ & _ & (Hlt & Hsep)).
@@ -446,10 +503,13 @@ Section Inv.
     - apply (open_any acc). exact H.
   Qed.
 
-  Lemma tr_flush acc forced :
-    triple (L (St_open acc)) (prim_f EFlush forced) (fun _ => L (St_flushed acc)) (fun _ => L Safe) (L Safe).
+  Lemma tr_write acc data disk forced :
+    triple (L (St_open acc)) (prim_f (EWrite data disk) forced) (fun _ => L (St_open (acc ++ data))) (fun _ => L Safe) (L Safe).
+  Proof. apply prim_stage; [apply open_stable|apply (open_any acc)|apply sem_write]. Qed.
+
+  Lemma sem_flush acc : sem_prem (St_open acc) (St_flushed acc) EFlush.
   Proof.
-    apply prim_stage; [apply open_stable|apply open_any|].
+    unfold sem_prem.
     intros um s f sc (Hb & (p & buf & Hf & Hp & Hv) & (Ho & Hfi & Hpu) & Hs). subst f. cbn.
     pose proof Hb as (_ & _ & (Hlt & Hsep)).
     split; [|split].
@@ -458,10 +518,13 @@ Section Inv.
     - unfold sc_writing. cbn. destruct Hs as [-> | ->]; auto.
   Qed.
 
-  Lemma tr_fsync acc forced :
-    triple (L (St_flushed acc)) (prim_f EFsync forced) (fun _ => L (St_synced acc)) (fun _ => L Safe) (L Safe).
+  Lemma tr_flush acc forced :
+    triple (L (St_open acc)) (prim_f EFlush forced) (fun _ => L (St_flushed acc)) (fun _ => L Safe) (L Safe).
+  Proof. apply prim_stage; [apply open_stable|apply open_any|apply sem_flush]. Qed.
+
+  Lemma sem_fsync acc : sem_prem (St_flushed acc) (St_synced acc) EFsync.
   Proof.
-    apply prim_stage; [apply flushed_stable|apply flushed_any|].
+    unfold sem_prem.
     intros um s f sc (Hb & (p & Hf & Hp & Hv) & (Ho & Hfi & Hpu) & Hs). subst f. cbn.
     pose proof Hb as (_ & _ & (Hlt & Hsep)).
     split; [|split].
@@ -470,10 +533,13 @@ Section Inv.
     - unfold sc_writing. cbn. rewrite Hs. auto.
   Qed.
 
-  Lemma tr_close acc forced :
-    triple (L (St_synced acc)) (prim_f EClose forced) (fun _ => L (St_ready acc)) (fun _ => L Safe) (L Safe).
+  Lemma tr_fsync acc forced :
+    triple (L (St_flushed acc)) (prim_f EFsync forced) (fun _ => L (St_synced acc)) (fun _ => L Safe) (L Safe).
+  Proof. apply prim_stage; [apply flushed_stable|apply flushed_any|apply sem_fsync]. Qed.
+
+  Lemma sem_close acc : sem_prem (St_synced acc) (St_ready acc) EClose.
   Proof.
-    apply prim_stage; [apply synced_stable|apply synced_any|].
+    unfold sem_prem.
     intros um s f sc (Hb & (p & Hf & Hp & Hv & Hd) & (Ho & Hfi & Hpu) & Hs). subst f. cbn.
     pose proof Hb as (_ & _ & (Hlt & Hsep)).
     split; [|split; [reflexivity|split]].
@@ -482,10 +548,13 @@ Section Inv.
     - unfold sc_writing. cbn. rewrite Hs. auto.
   Qed.
 
-  Lemma tr_rename forced :
-    triple (L (St_ready new)) (prim_f (ERename part dest) forced) (fun _ => L St_done) (fun _ => L Safe) (L Safe).
+  Lemma tr_close acc forced :
+    triple (L (St_synced acc)) (prim_f EClose forced) (fun _ => L (St_ready acc)) (fun _ => L Safe) (L Safe).
+  Proof. apply prim_stage; [apply synced_stable|apply synced_any|apply sem_close]. Qed.
+
+  Lemma sem_rename : sem_prem (St_ready new) St_done (ERename part dest).
   Proof.
-    apply prim_stage; [apply ready_stable|apply ready_any|].
+    unfold sem_prem.
     intros um s f sc (Hb & Hf & (p & Hp & Hnd & Hv & Hd) & (Ho & Hfi & Hpu) & Hs). subst f. cbn.
     rewrite Hp, Hne. cbn.
     split; [split; [|split; [|split; [reflexivity|]]]|].
@@ -496,10 +565,13 @@ Section Inv.
     - cbn. fsimp; apply upd_eq.
   Qed.
 
-  Lemma tr_link forced :
-    triple (L (St_ready new)) (prim_f (ELink part dest) forced) (fun _ => L St_post) (fun _ => L Safe) (L Safe).
+  Lemma tr_rename forced :
+    triple (L (St_ready new)) (prim_f (ERename part dest) forced) (fun _ => L St_done) (fun _ => L Safe) (L Safe).
+  Proof. apply prim_stage; [apply ready_stable|apply ready_any|apply sem_rename]. Qed.
+
+  Lemma sem_link : sem_prem (St_ready new) St_post (ELink part dest).
   Proof.
-    apply prim_stage; [apply ready_stable|apply ready_any|].
+    unfold sem_prem.
     intros um s f sc H. pose proof H as (Hb & Hf & (p & Hp & Hnd & Hv & Hd) & (Ho & Hfi & Hpu) & Hs). subst f. cbn.
     rewrite Hp. destruct (f_dir s dest) eqn:Ed; cbn.
     - eapply ready_any. exact H.
@@ -509,6 +581,10 @@ Section Inv.
       + exists p. cbn. fsimp; rewrite upd_eq. auto.
       + rewrite Nat.eqb_refl, Ho, Hpu, Hfi, Hs, Nat.eqb_refl. auto.
   Qed.
+
+  Lemma tr_link forced :
+    triple (L (St_ready new)) (prim_f (ELink part dest) forced) (fun _ => L St_post) (fun _ => L Safe) (L Safe).
+  Proof. apply prim_stage; [apply ready_stable|apply ready_any|apply sem_link]. Qed.
 
   Lemma tr_unlink_post forced :
     triple (L St_post) (prim_f (EUnlink part) forced) (fun _ => L St_done) (fun _ => L Safe) (L Safe).
@@ -783,7 +859,7 @@ Proof.
   intros Hdp Hpd Hwf Hr.
   destruct (run_safe c ops raises s0 umask crash sched Hdp Hpd Hwf) as [(Hs & _) Hd].
   rewrite Hr in Hs, Hd. cbn [fst snd] in Hs, Hd.
-  unfold calls_ok. rewrite scan_of_rev. fold (scan_of c w).
+  unfold calls_ok. rewrite scan_of_rev. fold (scan_tr c (w_trace w)). fold (scan_of c w).
   rewrite (safe_calls c s0 sched (new_content ops) _ _ _ Hs). cbn [andb].
   destruct o as [x|e|]; cbn [completed negb orb]; auto.
   destruct (Hd x eq_refl) as (((_ & _ & _ & _ & Hp) & _) & _). exact Hp.
